@@ -250,6 +250,9 @@ func zzBuildScene(r *simkit.R) *zzScene {
 	}
 	l := s.l
 	l.computeBounds(rule)
+	if l.link != nil {
+		w.linkID = l.link.GetID()
+	}
 
 	// placement
 	var phys []*object.Object
@@ -570,7 +573,9 @@ func (s *zzScene) doOp() {
 	w.hitDown.Store(false)
 	w.hitHang.Store(false)
 	w.remoteGet.Store(0)
+	w.linkRead.Store(false)
 	col := new(zzCollector)
+	px := &zzProxy{w: w, col: col}
 	t0 := time.Now()
 
 	op := r.Weighted(2, 4, 4, 1) // Get, GetRange, Get with range, Head
@@ -589,6 +594,7 @@ func (s *zzScene) doOp() {
 		p.WithAddress(addr)
 		p.WithContainer(w.cnr)
 		p.SetObjectWriter(col)
+		p.SetTransportFunc(px.getFn(addr, p.payloadRange))
 		err = entry.Get(ctx, p)
 	case 1:
 		off := s.drawOff()
@@ -605,6 +611,7 @@ func (s *zzScene) doOp() {
 		p.SetRange(rng)
 		p.SetChunkWriter(col)
 		payloadOnly = true
+		p.SetTransportFunc(px.rangeFn(addr, off, ln))
 		err = entry.GetRange(ctx, p)
 	case 2:
 		var p Prm
@@ -650,7 +657,9 @@ func (s *zzScene) doOp() {
 			p.MarkPayloadOnly()
 			name += " payload-only"
 			opn += " payload-only"
+			px.suppressInit = true
 		}
+		p.SetTransportFunc(px.getFn(addr, p.payloadRange))
 		err = entry.Get(ctx, p)
 	case 3:
 		name, opn = "Head", "Head"
@@ -659,7 +668,13 @@ func (s *zzScene) doOp() {
 		p.WithAddress(addr)
 		p.WithContainer(w.cnr)
 		p.SetHeaderWriter(col)
+		p.SetTransportFunc(px.headFn(addr))
+		p.SetSubmitHeadResponseFunc(px.submitHead)
 		err = entry.Head(ctx, p)
+	}
+	if err == nil && px.status != nil {
+		// a container node finished the proxied request with a status: that is the client's answer
+		err = px.status
 	}
 	r.AddSimTime(time.Since(t0))
 	shape := s.faultShape()
@@ -742,7 +757,15 @@ func (s *zzScene) doOp() {
 		if crossing {
 			c += ",crosses-boundary"
 		}
-		return fmt.Sprintf("%s %s %s: %s [%s]", l.kind, opn, c, what, shape)
+		path := ""
+		if split && op != 3 {
+			// which way the object was assembled (by the entry node or by a container node)
+			path = "via last part; "
+			if w.linkRead.Load() {
+				path = "via link; "
+			}
+		}
+		return fmt.Sprintf("%s %s %s: %s [%s%s]", l.kind, opn, c, what, path, shape)
 	}
 	if op == 3 {
 		if err == nil {
@@ -757,12 +780,16 @@ func (s *zzScene) doOp() {
 		return
 	}
 	want := l.payload[exp.lo:exp.hi]
+	var lastChild []byte
+	if split {
+		lastChild = l.children[len(l.children)-1].Payload()
+	}
 	if err == nil {
 		if !exp.okAllowed {
 			r.Failf("c23-unsatisfiable-served", sig("success on a range that cannot be satisfied"), "%s on a %d-byte object succeeds with %d bytes", name, L, len(col.data))
 		}
 		if !bytes.Equal(col.data, want) {
-			r.Failf("c23-wrong-bytes", sig("success with wrong bytes"), "%s on a %d-byte object returns %d bytes, expected payload[%d:%d] (%d bytes); first difference at %d", name, L, len(col.data), exp.lo, exp.hi, len(want), zzFirstDiff(col.data, want))
+			r.Failf("c23-wrong-bytes", sig("success with wrong bytes ("+zzWrongness(col.data, want, lastChild)+")"), "%s on a %d-byte object returns %d bytes, expected payload[%d:%d] (%d bytes); first difference at %d", name, L, len(col.data), exp.lo, exp.hi, len(want), zzFirstDiff(col.data, want))
 		}
 		if !payloadOnly {
 			if col.hdrs != 1 || !s.sameHeader(col.hdr) {
@@ -784,11 +811,32 @@ func (s *zzScene) doOp() {
 		return
 	}
 	if !exp.errAllowed {
-		r.Failf("c23-read-failed", sig("read fails though all needed data is reachable"), "%s on a %d-byte object fails with %q after %d bytes though every needed object is held by a healthy node", name, L, err, len(col.data))
+		progress := "nothing"
+		switch {
+		case len(col.data) > 0:
+			progress = "part of the payload"
+		case col.hdrs > 0:
+			progress = "the header"
+		}
+		r.Failf("c23-read-failed", sig("read fails ("+zzErrKind(err)+" after "+progress+") though all needed data is reachable"), "%s on a %d-byte object fails with %q after %d bytes though every needed object is held by a healthy node", name, L, err, len(col.data))
 	}
 	if exp.oorRequired && !errors.Is(err, apistatus.ErrObjectOutOfRange) {
 		r.Failf("c23-out-of-range", sig("unsatisfiable range not reported as out of range"), "%s on a %d-byte object fails with %q instead of the out-of-range status", name, L, err)
 	}
+}
+
+func zzErrKind(err error) string {
+	switch {
+	case errors.Is(err, apistatus.ErrObjectNotFound):
+		return "not found"
+	case errors.Is(err, apistatus.ErrObjectOutOfRange):
+		return "out of range"
+	case errors.Is(err, context.DeadlineExceeded), errors.Is(err, context.Canceled):
+		return "deadline"
+	case errors.Is(err, apistatus.Error):
+		return "other status"
+	}
+	return "error"
 }
 
 func zzLenIfOK(err error, c *zzCollector) int {
@@ -796,6 +844,24 @@ func zzLenIfOK(err error, c *zzCollector) int {
 		return -1
 	}
 	return len(c.data)
+}
+
+// zzWrongness names how a returned byte string differs from the expected one.
+func zzWrongness(got, want, lastChild []byte) string {
+	switch {
+	case len(got) == 0:
+		return "nothing returned"
+	case len(got) > len(want) && bytes.Equal(got[:len(want)], want):
+		if lastChild != nil && bytes.Equal(got[len(want):], lastChild) {
+			return "right bytes followed by the whole last child"
+		}
+		return "right bytes followed by extra bytes"
+	case len(got) < len(want) && bytes.Equal(got, want[:len(got)]):
+		return "only a prefix returned"
+	case len(got) == len(want):
+		return "right length, other bytes"
+	}
+	return "other bytes, other length"
 }
 
 func zzFirstDiff(a, b []byte) int {
